@@ -930,6 +930,17 @@ func (p *pp) fmtBytes(v []byte, verb rune, typeString string) {
 		p.fmt.fmtBx(v, udigits)
 	case 'q':
 		p.fmt.fmtQ(string(v))
+	default:
+		// any other verb formats the bytes one by one as integers, as fmt
+		// does for a byte slice
+		_, _ = p.WriteSingleByte('[')
+		for i, c := range v {
+			if i > 0 {
+				_, _ = p.WriteSingleByte(' ')
+			}
+			p.fmtInteger(uint64(c), unsigned, verb)
+		}
+		_, _ = p.WriteSingleByte(']')
 	}
 }
 
